@@ -109,5 +109,6 @@ if __name__ == "__main__":
     hs = sys.argv[1:]
     r = run("/repo", hs)
     log = r.pop("_log", "")
-    print(log[-6000:])
-    print(r)
+    open("/tmp/kanileg.log", "w").write(log)
+    import json
+    print(json.dumps({k: v for k, v in r.items()}, indent=0)[:6000])
